@@ -39,6 +39,15 @@ pub fn cases(f: &mut dyn FnMut(Value) -> bool) {
             }
         }
     }
+    // sequence-form documents (the compact form of the derived Serialize: data, num_rows, num_cols).  The
+    // crate rejects them; a version that accepts them must read the fields in that order.
+    for doc in ["[[1,2,3,4,5,6],2,3]", "[[7,8,9],3,1]", "[[1,2,3,4],2,2]", "[[],0,0]", "[[1,2],1,1]"] {
+        for tr in TRANSPORTS {
+            if !f(json!({"raw": doc, "seq": true, "transport": tr})) {
+                return;
+            }
+        }
+    }
     for raw in ["null", "5", "\"x\"", "[]", "[2,1,[1,2]]", "[[\"num_cols\",2]]", "{}", "true", "{\"num_cols\":2,\"num_rows\":1,\"data\":[1,2]}garbage", "", "{", "{\"data\":[1,2],\"num_cols\":2,\"num_rows\":1,}"] {
         for tr in TRANSPORTS {
             if !f(json!({"raw": raw, "transport": tr})) {
@@ -212,6 +221,21 @@ fn deserialize(doc: &str, tr: &str) -> Result<Result<TooDee<u32>, String>, ()> {
 pub fn run(case: &Value) -> Res {
     let tr = js(&case["transport"]);
     let (doc, expected): (String, Option<(usize, usize, Vec<u32>)>) = if let Some(raw) = case.get("raw") {
+        if case.get("seq").and_then(|v| v.as_bool()).unwrap_or(false) {
+            // Err is fine; Ok must be the array the sequence denotes in field order (data, num_rows, num_cols)
+            let v: Value = serde_json::from_str(js(raw)).expect("sequence document is JSON");
+            let m = model(&[("data".to_string(), v[0].clone()), ("num_rows".to_string(), v[1].clone()), ("num_cols".to_string(), v[2].clone())]);
+            let variant = format!("{} via {}", js(raw), tr);
+            return match deserialize(js(raw), tr) {
+                Err(()) => Err(Fail::new(variant, "Err or Ok", "panic")),
+                Ok(Err(_)) => Ok(()),
+                Ok(Ok(t)) => {
+                    shape_invariant(&variant, &t)?;
+                    let got = Some((t.num_cols(), t.num_rows(), t.data().to_vec()));
+                    if got == m { Ok(()) } else { Err(Fail::new(variant, format!("Err, or Ok {:?} (cols, rows, cells in field order data,num_rows,num_cols)", m), format!("Ok {:?}", got))) }
+                }
+            };
+        }
         (js(raw).to_string(), None)
     } else {
         let fields: Vec<(String, String)> = case["fields"].as_array().unwrap().iter().map(|p| (js(&p[0]).to_string(), js(&p[1]).to_string())).collect();
